@@ -57,6 +57,18 @@ type histState struct {
 	h     hash.Hash
 	model []byte
 	pos   int // absolute position counter: bytes differ after a Reset as well
+	// every slice a Sum call handed out, with a private copy of what it held then: the result belongs
+	// to the caller and no later call on the object may change it
+	handed [][2][]byte
+}
+
+func (st *histState) handedIntact() (string, string) {
+	for i, h := range st.handed {
+		if !bytes.Equal(h[0], h[1]) {
+			return "earlier-sum-result-changed", fmt.Sprintf("the slice returned by Sum call %d held %s and now holds %s", i+1, pu.Hex(h[1]), pu.Hex(h[0]))
+		}
+	}
+	return "", ""
 }
 
 func checkSum(c *harness.Ctx, st *histState, op int) (key, desc string) {
@@ -74,6 +86,7 @@ func checkSum(c *harness.Ctx, st *histState, op int) (key, desc string) {
 		in = can.Slice()
 	}
 	out := st.h.Sum(in)
+	st.handed = append(st.handed, [2][]byte{out, append([]byte{}, out...)})
 	exp := append(append([]byte{}, in...), want[:]...)
 	if !bytes.Equal(out, exp) {
 		if len(out) == 32 && bytes.Equal(out, want[:]) && len(in) > 0 {
@@ -149,6 +162,9 @@ func runHistory(c *harness.Ctx, first int, depth int, x *xp.X, alphabet []int) (
 	c.Add("transitions", 1)
 	if k, d := checkSum(c, st, opSumNil); k != "" {
 		return ops, k + "-final", d
+	}
+	if k, d := st.handedIntact(); k != "" {
+		return ops, k, d
 	}
 	return ops, "", ""
 }
@@ -376,7 +392,7 @@ func consumersUnit() harness.Unit {
 var Prop = &harness.Prop{
 	ID:    "C04",
 	Level: "model_checking",
-	Rule: "every sequence over {Write(c) c in {0,1,3,55,56,63,64,65,119,128}, Sum(nil), Sum(3-byte prefix), Sum(3-byte prefix with 64 spare), Reset} up to the depth bound runs on a real sm3.New() object; the model is a byte slice; after every Sum the result must equal prefix||refsm3(model) and the prefix/capacity must be intact; plus every split of every length, every one-shot length, long streams, single very large Writes (an argument of 2^k-1, 2^k, 2^k+1 bytes), HMAC and PBKDF2 against their definitions over refsm3. " +
+	Rule: "every sequence over {Write(c) c in {0,1,3,55,56,63,64,65,119,128}, Sum(nil), Sum(3-byte prefix), Sum(3-byte prefix with 64 spare), Reset} up to the depth bound runs on a real sm3.New() object; the model is a byte slice; after every Sum the result must equal prefix||refsm3(model) and the prefix/capacity must be intact, and at the end of the history every slice an earlier Sum handed out must still hold what it held; plus every split of every length, every one-shot length, long streams, single very large Writes (an argument of 2^k-1, 2^k, 2^k+1 bytes), HMAC and PBKDF2 against their definitions over refsm3. " +
 		"states = distinct message lengths compared one-shot/split; outcomes = distinct verdict classes of the history exploration.",
 	Assumptions: []string{"refsm3 is a correct transcription of GM/T 0004 (self-tested on the standard's vectors by setup.sh)", "message bytes are a fixed function of position; digest collisions between distinct models are ignored"},
 	Bounds: func(tier string) string {
